@@ -624,6 +624,9 @@ def clause_f(repo, chk):
 
 
 def run(repo, chk, tier):
+    from ..cacheown import check_persistent_state
+
+    check_persistent_state(repo, chk, ["tf_pwa/model/"])
     from .c07 import check_gauss_constr
 
     check_gauss_constr(repo, chk, parts=("value",))
